@@ -1,14 +1,38 @@
 import BeyondVerif.Generated.Sgp4BetaR
 import BeyondVerif.Model.Sgp4RefR
+import BeyondVerif.Lemmas.Sgp4Ref
 import Mathlib.Tactic.LinearCombination
 import Mathlib.Tactic.NormNum
 import Mathlib.Tactic.FieldSimp
 import Mathlib.Tactic.Positivity
 import Mathlib.Tactic.NormNum.OfScientific
 
+/-!
+# C07, part 3 — the native SGP4 model IS the reference theory, piece by piece (over ℝ)
+
+Clause: "The built-in native SGP4 implementation returns the same state as the reference … wherever the reference uses its
+full near-Earth model".
+
+Left-hand sides: `Generated/Sgp4BetaR.lean`, translated from the Python AST of `beyond/propagators/sgp4beta.py` on every run
+(setter cut into `sgp4InitKozai | sgp4InitS | sgp4InitDrag | sgp4InitEcc | sgp4InitD | sgp4InitDot`, `propagate` cut into
+`sgp4Secular | sgp4Elements | sgp4Long | sgp4Kepler | sgp4Short | sgp4Frame`).
+Right-hand sides: `Model/Sgp4RefR.lean` (`templates/Sgp4Ref.tpl`), the hand-written transcription of python-sgp4's
+`_initl / sgp4init / sgp4` for `method = 'n'`, `isimp = 0`, whose Float instantiation is compared with the package itself
+field by field on every run (correspondence "refspec").
+
+Every theorem is ∀ inputs of the piece; the guards of the native model (`e0 > 1e-4` for C3 and for the `delta_M` drag
+correction, perigee < 156 / 98 km for `s`, `e < 1e-6`, `1 + cos i > 1.5e-12`) are part of the statements: the reference's
+guards stand on the right-hand side, written by hand, so a reworded guard in sgp4beta.py that is not equivalent for ALL
+inputs (e.g. `C3 != 0` for `e0 > 1e-4`: false at sin i0 = 0) makes the regenerated left-hand side differ and the proof fail.
+
+Not equated (stated in `NOT_COVERED`): the two Kepler iterations (the reference clips each correction to 0.95 and applies the
+last one; the native loop does neither — both stop at a Newton correction below 1e-12, `beta_kepler_residual`), and the
+reference's error exits.
+-/
 namespace BeyondVerif.C07
 open BeyondVerif.R
 
+/-- the gravity constants of the class `Sgp4Beta.MODEL` names (regenerated) are the reference's `getgravconst('wgs72')` -/
 theorem beta_consts_reference :
     g_μ_e = w_mu ∧ g_r_e = w_re ∧ g_k_e = w_xke ∧ g_j2 = w_j2 ∧ g_j3 = w_j3 ∧ g_j4 = w_j4 := by
   refine ⟨rfl, rfl, ?_, rfl, ?_, ?_⟩
@@ -17,6 +41,9 @@ theorem beta_consts_reference :
   · simp only [g_j3, w_j3]
   · simp only [g_j4, w_j4]
 
+/-- "update for secular gravity and atmospheric drag": the first piece of `propagate` returns the reference's
+`xmdf, argpdf, nodedf, delomg, delm` — with `xmcof` non-zero exactly when `e0 > 1e-4`, the reference's guard, for ALL cached
+values (in particular whatever `C3` is) -/
 theorem beta_secular_reference (n0 i_n0 M0 t i_Mdot ω0 i_ωdot Ω0 i_Ωdot bstar i_C3 e0 i_η i_ξ i_q0 i_s : ℝ) :
     sgp4Secular n0 i_n0 M0 t i_Mdot ω0 i_ωdot Ω0 i_Ωdot bstar i_C3 e0 i_η i_ξ i_q0 i_s
       = [i_n0, g_μ_e, g_r_e, g_k_e] ++ refSecular t M0 ω0 Ω0 i_η (i_Mdot * i_n0) (i_ωdot * i_n0) (i_Ωdot * i_n0) (bstar * i_C3 * Real.cos ω0)
@@ -30,7 +57,7 @@ theorem beta_secular_reference (n0 i_n0 M0 t i_Mdot ω0 i_ωdot Ω0 i_Ωdot bsta
     ring
   · rw [if_neg h, if_neg (fun h' => h (hg.mpr h'))]; norm_num
 
-
+/-- `D2, D3, D4` are the reference's `d2, d3, d4`, and the polynomial coefficients the native model writes inline are `nodecf`-free `t2cof … t5cof` -/
 theorem beta_d_reference (ξ C1 a0 s e0 xh : ℝ) (hξ : ξ = 1 / (a0 - s)) :
     ∃ D2 D3 D4, sgp4InitD ξ C1 a0 s = [D2, D3, D4] ∧
       refCoefD a0 s e0 C1 xh = [3.5 * (1 - e0 * e0) * xh * C1, 1.5 * C1, D2, D3, D4, D2 + 2 * C1 ^ 2,
@@ -42,6 +69,7 @@ theorem beta_d_reference (ξ C1 a0 s e0 xh : ℝ) (hξ : ξ = 1 / (a0 - s)) :
   norm_num only
   refine ⟨?_, ?_, ?_, ?_, ?_, ?_, ?_, ?_⟩ <;> first | trivial | ring
 
+/-- the density-function constants: `s` is the reference's `sfour`, `(q0 - s)^4` its `qzms24`, with the same switches at perigee heights 156 km and 98 km -/
 theorem beta_s4_reference (a0 e0 : ℝ) :
     ∃ s q0, sgp4InitS a0 e0 w_re = [s, q0] ∧
       refS4 a0 e0 = [s, (q0 - s) ^ 4, if a0 * (1 - e0) < 220 / w_re + 1 then 1 else 0] := by
@@ -57,7 +85,7 @@ theorem beta_s4_reference (a0 e0 : ℝ) :
   · simp only [h1, if_false, List.cons.injEq, and_true, true_and]
     ring
 
-
+/-- secular rates: `Mdot·n0'', ωdot·n0'', Ωdot·n0''` are the reference's `mdot, argpdot, nodedot`, for every eccentricity below 1 -/
 theorem beta_dot_reference (β0 a0 e0 i0 no : ℝ) (hβ : β0 = Real.sqrt (1 - e0 ^ 2)) (he : e0 ^ 2 < 1) (ha : a0 ≠ 0) :
     ∃ Md ωd Ωd, sgp4InitDot β0 (w_j2 / 2) a0 (Real.cos i0) (-(3 / 8) * w_j4) = [Md, ωd, Ωd] ∧
       refCoefDot no a0 e0 i0 = [Md * no, ωd * no, Ωd * no,
@@ -78,17 +106,8 @@ theorem beta_dot_reference (β0 a0 e0 i0 no : ℝ) (hβ : β0 = Real.sqrt (1 - e
   · field_simp; ring
   · trivial
 
-
-theorem rpow_four (x : ℝ) : Real.rpow x (4.0 : ℝ) = x ^ 4 := by
-  have h : (4.0 : ℝ) = ((4 : ℕ) : ℝ) := by norm_num
-  show x ^ (4.0 : ℝ) = x ^ 4
-  rw [h, Real.rpow_natCast]
-
-theorem rpow_m72 {y : ℝ} (hy : 0 < y) : Real.rpow y (-(7 : ℝ) / 2) = (Real.rpow y (3.5 : ℝ))⁻¹ := by
-  have h : (-(7 : ℝ) / 2) = -(3.5 : ℝ) := by norm_num
-  show y ^ (-(7 : ℝ) / 2) = (y ^ (3.5 : ℝ))⁻¹
-  rw [h, Real.rpow_neg hy.le]
-
+/-- drag coefficients: `η = eta`, `C1 = cc1`, `C3 = cc3` (both zero unless `e0 > 1e-4`), and the reference's `omgcof`, `xmcof`
+in terms of the cached values — whenever `η² < 1` -/
 theorem beta_drag_coef_reference (i0 a0 s e0 no q0 bstar ω0 : ℝ) (hη : (a0 * e0 * (1 / (a0 - s))) ^ 2 < 1) :
     ∃ θ ξ β0 η C1 C3, sgp4InitDrag i0 a0 s e0 no q0 (w_j2 / 2) bstar (-w_j3) = [θ, ξ, β0, η, C1, C3]
       ∧ θ = Real.cos i0 ∧ ξ = 1 / (a0 - s) ∧ β0 = Real.sqrt (1 - e0 ^ 2) ∧ η = a0 * e0 * ξ
@@ -129,7 +148,7 @@ theorem beta_drag_coef_reference (i0 a0 s e0 no q0 bstar ω0 : ℝ) (hη : (a0 *
     · simp only [if_pos (hg.mp h)]
     · simp only [if_neg (fun h' => h (hg.mpr h'))]; norm_num
 
-
+/-- `C4 = cc4`, `C5 = cc5` -/
 theorem beta_ecc_coef_reference (i0 a0 s e0 no q0 bstar ω0 : ℝ) (hη : (a0 * e0 * (1 / (a0 - s))) ^ 2 < 1) (he : e0 ^ 2 ≤ 1) :
     ∃ C4 C5, sgp4InitEcc a0 (Real.sqrt (1 - e0 ^ 2)) (a0 * e0 * (1 / (a0 - s))) e0 (1 / (a0 - s)) (w_j2 / 2) no ω0 q0 s (Real.cos i0) = [C4, C5]
       ∧ (refCoefDrag no a0 s ((q0 - s) ^ 4) e0 i0 ω0 bstar).getD 3 0 = C4
@@ -154,11 +173,7 @@ theorem beta_ecc_coef_reference (i0 a0 s e0 no q0 bstar ω0 : ℝ) (hη : (a0 * 
   · norm_num only
     field_simp
 
-theorem rpow_three_half {x : ℝ} (hx : 0 ≤ x) : Real.rpow x ((3.0 : ℝ) / (2.0 : ℝ)) = Real.sqrt x * x := by
-  have h : ((3.0 : ℝ) / (2.0 : ℝ)) = 1 / 2 + 1 := by norm_num
-  show x ^ ((3.0 : ℝ) / (2.0 : ℝ)) = Real.sqrt x * x
-  rw [h, Real.rpow_add' hx (by norm_num), Real.rpow_one, Real.sqrt_eq_rpow]
-
+/-- `_initl`: the un-Kozai'd mean motion and the semi-major axis, and the constants `A30 = -j3`, `k2 = j2/2`, `k4 = -3/8 j4` -/
 theorem beta_unkozai_reference (n0 e0 i0 : ℝ) (he : e0 ^ 2 ≤ 1) :
     ∃ no ao, refInitl e0 i0 (n0 * 60) = [no, ao]
       ∧ sgp4InitKozai n0 e0 i0 = [w_re, -w_j3, w_j2 / 2, -(3 / 8) * w_j4, ao, no] := by
@@ -190,12 +205,8 @@ theorem beta_unkozai_reference (n0 e0 i0 : ℝ) (he : e0 ^ 2 ≤ 1) :
   refine ⟨by ring, by ring, ?_, key⟩
   rw [key]
 
-
-theorem sin_fmod (x : ℝ) : Real.sin (NumReal.fmod x (2 * Real.pi)) = Real.sin x := by
-  unfold NumReal.fmod
-  rw [show x - 2 * Real.pi * ((⌊x / (2 * Real.pi)⌋ : ℤ) : ℝ) = x - ((⌊x / (2 * Real.pi)⌋ : ℤ) : ℝ) * (2 * Real.pi) by ring]
-  exact Real.sin_sub_int_mul_two_pi x _
-
+/-- the mean elements at `t`: argument of perigee, node, eccentricity (with the 1e-6 floor), semi-major axis are the
+reference's `argpm, nodem, em, am`; the mean longitude differs from `xlm` by a whole number of turns -/
 theorem beta_elements_reference (δM Mdf δω ωdf Ωdf C1 t θ β0 no a0 e0 bstar C5 C4 M0 D4 D3 D2 : ℝ)
     (ha0 : a0 = Real.rpow (w_xke / no) (2 / 3)) :
     ∃ ω Ω e a L, sgp4Elements δM Mdf δω ωdf Ωdf C1 t θ (w_j2 / 2) β0 no a0 e0 bstar C5 C4 M0 D4 D3 D2 = [ω, Ω, e, a, L]
@@ -217,16 +228,8 @@ theorem beta_elements_reference (δM Mdf δω ωdf Ωdf C1 t θ β0 no a0 e0 bst
     norm_num only
     ring
 
-
-theorem fmod_add_int_mul (x : ℝ) (k : ℤ) :
-    NumReal.fmod (x + 2 * Real.pi * k) (2 * Real.pi) = NumReal.fmod x (2 * Real.pi) := by
-  unfold NumReal.fmod
-  have hp : (2 * Real.pi) ≠ 0 := by positivity
-  have h : (x + 2 * Real.pi * k) / (2 * Real.pi) = x / (2 * Real.pi) + k := by field_simp
-  rw [h, Int.floor_add_intCast]
-  push_cast
-  ring
-
+/-- long-period periodics: `axN, ayN` are `axnl, aynl`, and the argument of Kepler's equation is the reference's `u`
+(`xlcof` with its guard at 180 degrees, `aycof`), given a mean longitude equal up to whole turns -/
 theorem beta_long_reference (e μ a ω i0 L Ω xlm : ℝ) (k : ℤ) (hL : xlm = L + 2 * Real.pi * k) (he : e ^ 2 ≤ 1) :
     ∃ n axN ayN U, sgp4Long e μ a ω (-w_j3) i0 (w_j2 / 2) (Real.cos i0) L Ω = [n, axN, ayN, U]
       ∧ n = μ / Real.rpow a (3 / 2)
@@ -257,7 +260,7 @@ theorem beta_long_reference (e μ a ω i0 L Ω xlm : ℝ) (k : ℤ) (hL : xlm = 
       field_simp
       ring
 
-
+/-- the coefficient of `t²` in the node is the reference's `nodecf = 3.5·omeosq·xhdot1·cc1` -/
 theorem beta_nodecf_reference (no a0 e0 β0 θ C1 : ℝ) (hβ2 : β0 ^ 2 = 1 - e0 ^ 2) (ha : a0 ≠ 0) (hβ : β0 ≠ 0) :
     3.5 * (1 - e0 * e0) * (-(1.5 * w_j2 * (1 / (a0 * (1 - e0 * e0) * (a0 * (1 - e0 * e0)))) * no) * θ) * C1
       = -(21 * no * (w_j2 / 2) * θ / (2 * a0 ^ 2 * β0 ^ 2)) * C1 := by
@@ -267,6 +270,8 @@ theorem beta_nodecf_reference (no a0 e0 β0 θ C1 : ℝ) (hβ2 : β0 ^ 2 = 1 - e
   field_simp
   ring
 
+/-- The guard of the `delta_M` drag correction, pinned: for ALL inputs the term is Vallado's `xmcof·((1 + η cos xmdf)³ - delmo)`
+when `e0 > 1e-4` and zero otherwise -/
 theorem beta_deltaM_guard (n0 i_n0 M0 t i_Mdot ω0 i_ωdot Ω0 i_Ωdot bstar i_C3 e0 i_η i_ξ i_q0 i_s : ℝ) :
     (sgp4Secular n0 i_n0 M0 t i_Mdot ω0 i_ωdot Ω0 i_Ωdot bstar i_C3 e0 i_η i_ξ i_q0 i_s).getD 8 0
       = if e0 > 1.0e-4 then
@@ -281,40 +286,9 @@ theorem beta_deltaM_guard (n0 i_n0 M0 t i_Mdot ω0 i_ωdot Ω0 i_Ωdot bstar i_C
   · simp only [if_pos h]; ring
   · simp only [if_neg h]; ring
 
-
-theorem w_xke_pos : 0 < w_xke := by
-  simp only [w_xke, w_re, w_mu, NumReal.sqrt]
-  apply div_pos (by norm_num)
-  apply Real.sqrt_pos.mpr
-  norm_num
-
-theorem atan2_unit {x y : ℝ} (h : y ^ 2 + x ^ 2 = 1) :
-    Real.sin (NumReal.atan2 y x) = y ∧ Real.cos (NumReal.atan2 y x) = x := by
-  unfold NumReal.atan2
-  have hn : ‖(⟨x, y⟩ : ℂ)‖ = 1 := by
-    rw [Complex.norm_def, Complex.normSq_mk, show x * x + y * y = 1 by nlinarith, Real.sqrt_one]
-  have hz : (⟨x, y⟩ : ℂ) ≠ 0 := by
-    intro h0
-    rw [h0, norm_zero] at hn
-    exact zero_ne_one hn
-  constructor
-  · rw [Complex.sin_arg, hn]; simp
-  · rw [Complex.cos_arg hz, hn]; simp
-
-theorem kepler_unit (x y s c b a : ℝ) (hsc : s ^ 2 + c ^ 2 = 1) (hb : b ^ 2 = 1 - (x ^ 2 + y ^ 2)) (hb0 : 0 ≤ b)
-    (ha : a ≠ 0) (hr : 1 - (x * c + y * s) ≠ 0) :
-    (a / (a * (1 - (x * c + y * s))) * (s - y - x * (x * s - y * c) / (1 + b))) ^ 2
-      + (a / (a * (1 - (x * c + y * s))) * (c - x + y * (x * s - y * c) / (1 + b))) ^ 2 = 1 := by
-  have hT : 1 + b ≠ 0 := by positivity
-  have key : (s - y - x * ((x * s - y * c) / (1 + b))) ^ 2 + (c - x + y * ((x * s - y * c) / (1 + b))) ^ 2 = (1 - (x * c + y * s)) ^ 2 := by
-    generalize ht : (x * s - y * c) / (1 + b) = t
-    have ht' : x * s - y * c = t * (1 + b) := by rw [← ht]; field_simp
-    linear_combination (1 - x ^ 2 - y ^ 2) * hsc + t ^ 2 * hb + ((x * s - y * c) + t * (1 + b) - 2 * t) * ht'
-  have e1 : a / (a * (1 - (x * c + y * s))) = 1 / (1 - (x * c + y * s)) := by field_simp
-  rw [e1, mul_pow, mul_pow, ← mul_add, mul_div_assoc, mul_div_assoc, key]
-  field_simp
-
-
+/-- short-period periodics: the six quantities handed to the frame are the reference's `mrt, su, xnode, xinc, mvt, rvdot`
+(the reference forms `sin 2u, cos 2u` from `sinu, cosu`; they are the sine and cosine of `2·atan2(sinu, cosu)` because
+`(sinu, cosu)` is a unit vector, `kepler_unit`) — for every eccentric longitude, solved or not -/
 theorem beta_short_reference (axN ayN E a i0 μ Ω : ℝ) (hμ : μ ≠ 0) (ha : 0 < a)
     (hr : 1 - (axN * Real.cos E + ayN * Real.sin E) ≠ 0) (hel : axN ^ 2 + ayN ^ 2 < 1) :
     sgp4Short axN ayN E a (w_j2 / 2) (Real.cos i0) i0 μ (μ / Real.rpow a (3 / 2)) Ω
@@ -364,7 +338,7 @@ theorem beta_short_reference (axN ayN E a i0 μ Ω : ℝ) (hμ : μ ≠ 0) (ha :
     field_simp
     ring
 
-
+/-- orientation vectors: the state in metres is 1000 × the reference's kilometres -/
 theorem beta_frame_reference (ik Ωk uk rk rdotk rfdotk : ℝ) :
     sgp4Frame ik Ωk uk w_re rk rdotk rfdotk w_xke = (refFrame rk uk Ωk ik rdotk rfdotk).map (· * 1000) := by
   simp only [sgp4Frame, refFrame, List.map_cons, List.map_nil, List.cons.injEq, and_true, NumReal.sin, NumReal.cos]
@@ -372,5 +346,77 @@ theorem beta_frame_reference (ik Ωk uk rk rdotk rfdotk : ℝ) :
   simp only [e60]
   norm_num only
   refine ⟨?_, ?_, ?_, ?_, ?_, ?_⟩ <;> first | trivial | ring
+
+
+/-- The whole initialisation: the twenty cached values of the setter (composition `sgp4Init`, the function the driver runs)
+and the record `sgp4init` builds (composition `refInit`, the function compared with python-sgp4) — same `no_unkozai, ao, eta,
+cc1, cc3, cc4, cc5, mdot, argpdot, nodedot, omgcof, xmcof, nodecf, t2cof, d2 … t5cof` for every TLE with `e0 < 1`, `η² < 1` -/
+theorem beta_init_reference (i0 Ω0 e0 ω0 M0 n0 bstar : ℝ) (he : e0 ^ 2 < 1) :
+    ∃ a0 no s q0 θ ξ β0 η C1 C3 C4 C5 D2 D3 D4 Md ωd Ωd,
+      sgp4Init i0 Ω0 e0 ω0 M0 n0 bstar = [-w_j3, w_j2 / 2, a0, no, s, q0, θ, ξ, β0, η, C1, C3, C4, C5, D2, D3, D4, Md, ωd, Ωd]
+      ∧ (η ^ 2 < 1 → a0 ≠ 0 →
+          refInit e0 i0 ω0 (n0 * 60) bstar =
+            [if a0 * (1 - e0) < 220 / w_re + 1 then 1 else 0, if refDeep no then 1 else 0, no, a0, η, C1, C3, C4, C5,
+              Md * no, ωd * no, Ωd * no, bstar * C3 * Real.cos ω0,
+              if e0 > 1.0e-4 then -((2 : ℝ) / 3) * ((q0 - s) ^ 4 * ξ ^ 4) * bstar / (e0 * η) else 0,
+              -(21 * no * (w_j2 / 2) * θ / (2 * a0 ^ 2 * β0 ^ 2)) * C1, 1.5 * C1,
+              (refCoefLong i0).getD 0 0, (refCoefLong i0).getD 1 0, D2, D3, D4, D2 + 2 * C1 ^ 2,
+              1 / 4 * (3 * D3 + 12 * C1 * D2 + 10 * C1 ^ 3),
+              1 / 5 * (3 * D4 + 12 * C1 * D3 + 6 * D2 ^ 2 + 30 * C1 ^ 2 * D2 + 15 * C1 ^ 4)]) := by
+  obtain ⟨no, a0, hK1, hK2⟩ := beta_unkozai_reference n0 e0 i0 he.le
+  obtain ⟨s, q0, hS1, hS2⟩ := beta_s4_reference a0 e0
+  have hpos : 0 < 1 - e0 ^ 2 := by linarith
+  have hβpos : 0 < Real.sqrt (1 - e0 ^ 2) := Real.sqrt_pos.mpr hpos
+  have hβ2 : Real.sqrt (1 - e0 ^ 2) ^ 2 = 1 - e0 ^ 2 := Real.sq_sqrt hpos.le
+  have hDragN : sgp4InitDrag i0 a0 s e0 no q0 (w_j2 / 2) bstar (-w_j3)
+      = [Real.cos i0, 1 / (a0 - s), Real.sqrt (1 - e0 ^ 2), a0 * e0 * (1 / (a0 - s)),
+          (sgp4InitDrag i0 a0 s e0 no q0 (w_j2 / 2) bstar (-w_j3)).getD 4 0, (sgp4InitDrag i0 a0 s e0 no q0 (w_j2 / 2) bstar (-w_j3)).getD 5 0] := by
+    simp only [sgp4InitDrag, List.getD_cons_succ, List.getD_cons_zero, NumReal.cos, NumReal.sqrt, NumReal.powi]
+  obtain ⟨D2, D3, D4, hD1, hD2⟩ := beta_d_reference (1 / (a0 - s)) ((sgp4InitDrag i0 a0 s e0 no q0 (w_j2 / 2) bstar (-w_j3)).getD 4 0) a0 s e0
+    (-(1.5 * w_j2 * (1 / (a0 * (1 - e0 * e0) * (a0 * (1 - e0 * e0)))) * no) * Real.cos i0) rfl
+  refine ⟨a0, no, s, q0, Real.cos i0, 1 / (a0 - s), Real.sqrt (1 - e0 ^ 2), a0 * e0 * (1 / (a0 - s)),
+    (sgp4InitDrag i0 a0 s e0 no q0 (w_j2 / 2) bstar (-w_j3)).getD 4 0, (sgp4InitDrag i0 a0 s e0 no q0 (w_j2 / 2) bstar (-w_j3)).getD 5 0,
+    (sgp4InitEcc a0 (Real.sqrt (1 - e0 ^ 2)) (a0 * e0 * (1 / (a0 - s))) e0 (1 / (a0 - s)) (w_j2 / 2) no ω0 q0 s (Real.cos i0)).getD 0 0,
+    (sgp4InitEcc a0 (Real.sqrt (1 - e0 ^ 2)) (a0 * e0 * (1 / (a0 - s))) e0 (1 / (a0 - s)) (w_j2 / 2) no ω0 q0 s (Real.cos i0)).getD 1 0,
+    D2, D3, D4,
+    (sgp4InitDot (Real.sqrt (1 - e0 ^ 2)) (w_j2 / 2) a0 (Real.cos i0) (-(3 / 8) * w_j4)).getD 0 0,
+    (sgp4InitDot (Real.sqrt (1 - e0 ^ 2)) (w_j2 / 2) a0 (Real.cos i0) (-(3 / 8) * w_j4)).getD 1 0,
+    (sgp4InitDot (Real.sqrt (1 - e0 ^ 2)) (w_j2 / 2) a0 (Real.cos i0) (-(3 / 8) * w_j4)).getD 2 0, ?_, ?_⟩
+  · rw [sgp4Init, hK2]
+    simp only [hS1]
+    rw [hDragN]
+    simp only [hD1]
+    simp only [sgp4InitEcc, sgp4InitDot, List.getD_cons_succ, List.getD_cons_zero]
+  · intro hη ha
+    have hη' : (a0 * e0 * (1 / (a0 - s))) ^ 2 < 1 := hη
+    obtain ⟨θ, ξ, β0, η, C1, C3, hN, hθ, hξ, hβ, hηd, hR⟩ := beta_drag_coef_reference i0 a0 s e0 no q0 bstar ω0 hη'
+    obtain ⟨C4, C5, hE1, hE4, hE5⟩ := beta_ecc_coef_reference i0 a0 s e0 no q0 bstar ω0 hη' he.le
+    obtain ⟨Md, ωd, Ωd, hT1, hT2⟩ := beta_dot_reference (Real.sqrt (1 - e0 ^ 2)) a0 e0 i0 no rfl he ha
+    rw [hDragN] at hN
+    simp only [List.cons.injEq, and_true] at hN
+    obtain ⟨h1, h2, h3, h4, h5, h6⟩ := hN
+    subst h1 h2 h3 h4
+    rw [hE4, hE5, ← h5, ← h6] at hR
+    have hnc := beta_nodecf_reference no a0 e0 (Real.sqrt (1 - e0 ^ 2)) (Real.cos i0)
+      ((sgp4InitDrag i0 a0 s e0 no q0 (w_j2 / 2) bstar (-w_j3)).getD 4 0) hβ2 ha hβpos.ne'
+    rw [refInit, hK1]
+    simp only [hS2]
+    rw [refCoef, hR]
+    simp only [hT2, hD2]
+    have hL : refCoefLong i0 = [(refCoefLong i0).getD 0 0, (refCoefLong i0).getD 1 0] := by
+      simp only [refCoefLong, List.getD_cons_succ, List.getD_cons_zero]
+    rw [hL]
+    simp only [List.getD_cons_succ, List.getD_cons_zero, List.cons_append, List.nil_append, hE1, hT1, hnc]
+
+
+/-! hypotheses are satisfiable: ISS-like values (a0'' = 1.0626 Earth radii, s = 1.01222, e0 = 0.0007) -/
+example : ((1.0626 : ℝ) * 0.0007 * (1 / (1.0626 - 1.01222))) ^ 2 < 1 := by norm_num
+example : ((0.0007 : ℝ)) ^ 2 < 1 := by norm_num
+example : (0.3 : ℝ) ^ 2 + 0.2 ^ 2 < 1 := by norm_num
+/-- the guard theorem is not vacuous: at an equatorial orbit (`C3 = 0`) with `e0 = 0.01 > 1e-4` the modelled `delta_M` is the
+reference's non-zero term, not 0 -/
+example : (sgp4Secular 0.001 0.06 0 0 1 0 0 0 0 1 0 0.01 1 1 2 1).getD 8 0 = if (0.01 : ℝ) > 1.0e-4 then
+    -((2 : ℝ) / 3) * (((2 : ℝ) - 1) ^ 4 * 1 ^ 4) * 1 / (0.01 * 1) * ((1 + 1 * Real.cos (0 + 1 * 0.06 * 0)) ^ 3 - (1 + 1 * Real.cos 0) ^ 3) else 0 :=
+  beta_deltaM_guard ..
 
 end BeyondVerif.C07
